@@ -5,7 +5,8 @@ CONSTANTS
   Thr = 2
   Cap = 1
   LeakChoices = {FALSE}
-  CapDecrChoices = {FALSE}
+  CapDecrChoices = {TRUE}
+  SatChoices = {TRUE}
   AtomicSetPhase = TRUE
   Proc = {"p1", "p2"}
   NoProc = "nobody"
